@@ -230,6 +230,12 @@ class InitOwnership(FunctionContract):
         interp.registry.set_calls(calls)
         if self.which == 'linker':
             return Call([], {}, self_obj=obj, entry=e)
+        if self.which == 'model':
+            # every constructor argument reaches the parent constructor as given
+            e['span'] = [1, 2, 3]
+            e['given'] = {'strict': object(), 'dtype': object(), 'default_value': object(), 'X': object(), 'Y': object()}
+            e['engine'] = object()
+            return Call([e['span']], dict(e['given'], engine=e['engine']), self_obj=obj, entry=e)
         return Call([[1, 2, 3]], {}, self_obj=obj, entry=e)
 
     def post(self, interp, scenario, call, out):
@@ -251,6 +257,11 @@ class InitOwnership(FunctionContract):
             ctx.prove(z3.BoolVal(not shared), f'instance_{attr}_is_a_copy_not_the_class_level_object', 'own', **({'props': tag} if tag else {}))
         if e['which'] in ('model', 'linker'):
             ctx.prove(z3.BoolVal(f.get('endogenous') is not f.get('check')), 'instance_endogenous_and_check_are_distinct_lists', 'own', props=('C11', 'C04'))
+        if e['which'] == 'model':
+            pk = e.get('parent_kwargs') or {}
+            ok = set(pk) == set(e['given']) | {'span'} and pk.get('span') is e['span'] and all(pk.get(k) is v for k, v in e['given'].items())
+            ctx.prove(z3.BoolVal(ok), 'span_options_and_initial_values_reach_the_parent_constructor_unchanged', 'ensures', props=('C11', 'C09', 'C18'), note=str(sorted(pk)))
+            ctx.prove(z3.BoolVal(f.get('engine') is e['engine']), 'engine_argument_is_stored', 'ensures', props=('C11', 'C07'))
         if e['which'] == 'linker':
             import fsic.core.linkers as _lk
             init = _lk.BaseLinker.__init__
